@@ -1338,6 +1338,25 @@ func analyse(cfgName string, env []string, patterns []string, wantPkgs map[strin
 						}
 						errs = append(errs, site{cfg: cfgName, fn: fn, kind: short, ord: next("err"), expr: exprText(c.Args[0]), x: t})
 					}
+					// atomic / sync.Map writes into non-local memory are writes like any other
+					if f2 := c.StaticCallee(); f2 != nil && len(c.Args) > 0 {
+						full, nm := f2.String(), f2.Name()
+						pkgp := ""
+						switch {
+						case strings.Contains(full, "sync/atomic."):
+							pkgp = "sync/atomic" // also instantiations of the generic atomic.Pointer[T], which have no package of their own
+						case strings.Contains(full, "sync.Map"):
+							pkgp = "sync"
+						}
+						isAtomicWrite := pkgp == "sync/atomic" && (strings.HasPrefix(nm, "Store") || strings.HasPrefix(nm, "Swap") || strings.HasPrefix(nm, "CompareAndSwap") || strings.HasPrefix(nm, "Add") || strings.HasPrefix(nm, "Or") || strings.HasPrefix(nm, "And"))
+						isSyncMapWrite := pkgp == "sync" && (nm == "Store" || nm == "LoadOrStore" || nm == "Swap" || nm == "Delete" || nm == "LoadAndDelete" || nm == "CompareAndSwap")
+						if (isAtomicWrite || isSyncMapWrite) && !isInit {
+							k := rootKind(root(c.Args[0]))
+							if k != "local" && k != "fresh" && !rootedAtBenignParam(f, c.Args[0]) {
+								stores = append(stores, site{cfg: cfgName, fn: fn, kind: "store " + k + " (atomic)", ord: next("store"), expr: exprText(c.Args[0])})
+							}
+						}
+					}
 					// appends / copies into non-local memory
 					if b, ok := c.Value.(*ssa.Builtin); ok && (b.Name() == "append" || b.Name() == "copy") {
 						k := rootKind(root(c.Args[0]))
